@@ -227,7 +227,7 @@ def generate(rng, prop, tier):
         if sc['tkind'] in ('sq', 'sqdiff'):
             sc['r'] = rng.randint(1, 2)
     elif mode == 'steer_square':
-        sc['tkind'] = rng.choice(['normal', 'normal', 'zeros', 'scaled', 'nearorth', 'nearorth', 'overranked', 'overranked', 'sumdup', 'sumdup', 'rareslice', 'rareslice'])
+        sc['tkind'] = rng.choice(['normal', 'normal', 'zeros', 'scaled', 'nearorth', 'nearorth', 'overranked', 'overranked', 'sumdup', 'sumdup', 'rareslice', 'rareslice', 'zeropad', 'zeropad'])
         sc['prehistory'] = rng.random() < 0.3
     elif mode == 'adversarial':
         sc['fn'] = rng.choice(['sample', 'sample', 'sample_square', 'sample_square_unique', 'sample_square_unique', 'sample_lhs', 'sample_lhs',
@@ -286,6 +286,18 @@ def build_tensor(sc):
         B = make_tt(n, min(r, 2), sc['tseed'] + 3, dist='normal')
         order = int(g.integers(0, 3))
         return tt_add(A, tt_add(B, B)) if order == 0 else (tt_add(tt_add(B, B), A) if order == 1 else tt_add(B, tt_add(A, B)))
+    if kind == 'zeropad':
+        # ranks padded with exact zeros (as assembling a tensor into preallocated cores leaves them): one rank slice of a core
+        # vanishes identically while the matching slice of the neighbour does not
+        Y = make_tt(n, r + 1, sc['tseed'], dist='normal')
+        for _ in range(int(g.integers(1, 3))):
+            k = int(g.integers(0, len(n) - 1))
+            j = int(g.integers(0, r + 1))
+            if g.random() < 0.5:
+                Y[k][:, :, j] = 0.0
+            else:
+                Y[k + 1][j, :, :] = 0.0
+        return Y
     if kind in ('overranked', 'overpos'):
         # a rank profile with bonds larger than the neighbouring cores can carry (r_k > n_k * r_{k+1}), as un-rounded sums / products have
         rr = [int(g.integers(1, 9)) for _ in range(len(n) - 1)]
